@@ -508,8 +508,8 @@ pub fn do_navigate_command_string(mathml: Element, nav_command: &'static str) ->
             // Speak/Overview of where we landed (if we are supposed to speak it)
             let node_speech = speak(mathml, nav_position.current_node, use_read_rules)?;
             // debug!("node_speech: '{}'", node_speech);
-            if node_speech.is_empty() {
-                // try again in loop
+            if rules.pref_manager.borrow().get_tts().is_silent(&node_speech) {
+                // try again in loop (a bookmark on its own is not speech: navigation must not stop on an invisible operator because Bookmark=true)
                 return Ok( (speech, false));
             } else {
                 pop_stack(nav_state, stack_len_at_start);
